@@ -11,7 +11,7 @@ for d in seeded/*/; do
   if ! git apply $OLDPWD/$d/patch.diff 2>/dev/null; then echo "$id NOAPPLY" >> $out.tmp; cd /verif; continue; fi
   cd /verif
   extra=""; [ "$prop" = "C18" ] && extra="--runs 240"
-  res=$(./vcheck $prop --selfcheck 0 $extra 2>&1 | grep -v "^KNOWN")
+  res=$(VERIF_EVIDENCE_DIR=/tmp/hyverif-evidence-scratch ./vcheck $prop --selfcheck 0 $extra 2>&1 | grep -v "^KNOWN")
   rc=$(echo "$res" | grep -o "rc=[0-9]*" | tail -1)
   sig=$(echo "$res" | grep -o "signature=[^ ]*" | head -1)
   nv=$(echo "$res" | grep -o "violations=[0-9]*" | tail -1)
